@@ -136,15 +136,31 @@ theorem good_rawNow : Good rawNow := by
   unfold rawNow
   exact good_bind good_get (fun _ => good_pure _)
 
+theorem runP_dropBad (s : PState) : runP dropBad s = (.ok (), match s.items with
+    | .strErr .. :: rest => { s with items := rest }
+    | .unexpected .. :: rest => { s with items := rest }
+    | _ => s) := rfl
+
+theorem good_dropBad : Good dropBad := by
+  intro s
+  rw [runP_dropBad]
+  refine ⟨?_, fun h => by simp at h⟩
+  simp only []
+  split
+  · rename_i heq; rw [heq]; exact List.suffix_cons _ _
+  · rename_i heq; rw [heq]; exact List.suffix_cons _ _
+  · exact List.suffix_refl _
+
 theorem good_pseudoBranch (i : String) (m : FTok) (a b : W Reg) (l : W String) : Good (pseudoBranch i m a b l) := by
   unfold pseudoBranch
   exact good_bind good_rawNow (fun _ => good_pure _)
 
 attribute [local irreducible] Good getReg getImm getLabel getCsrImm getString getAny peekAny expectRParen rawNow
-  pseudoBranch liftE
+  pseudoBranch liftE dropBad
 
 macro "good_step" : tactic => `(tactic| first
   | exact good_pure _
+  | exact good_dropBad
   | exact good_getReg | exact good_getImm | exact good_getLabel | exact good_getCsrImm | exact good_getString
   | exact good_getAny | exact good_peekAny | exact good_expectRParen | exact good_rawNow | exact good_get
   | exact good_pseudoBranch _ _ _ _ _
